@@ -155,3 +155,27 @@ func CheckEmptyRun(c *core.Ctx, model string, sets []PSet, states [][]float64) {
 		}
 	}
 }
+
+// HostileHistory makes the process look like one that has been working with this model for a while - a calibration loop:
+// the case's own parameter set is run once, then 70-140 other parameterisations on fresh objects with tiny series.
+// Whatever the library keeps between calls and keys by parameter values (tables, pools, bounded caches that evict and
+// recycle entries) is then in the state it has in a long-lived process rather than in a fresh one. Results of the runs
+// are not looked at here: the checks of the case that follows do that.
+func HostileHistory(c *core.Ctx, model string, sets []PSet) {
+	r := core.NewRand(c.R.Uint64(), 0x68697374)
+	desc := NewModel(model).Description()
+	tiny := func(ps PSet) {
+		in := GenInputs(model, r, 2, ps)
+		_ = desc
+		Execute(&MRun{Model: model, N: 1, T: 2, Sets: []PSet{ps}, Inputs: [][][]float64{in}})
+	}
+	for _, ps := range sets {
+		tiny(ps)
+	}
+	n := r.IntRange(70, 140)
+	for i := 0; i < n; i++ {
+		tiny(GenPSet(model, r, genOpts{widthClass: 1 + r.Intn(13)}))
+	}
+	c.Tag("history:many-parameterisations-before")
+	c.Count("runs_made_as_hostile_history", float64(n+len(sets)))
+}
